@@ -748,6 +748,18 @@ def race_idioms():
     A(P("uld-ok", [spawn(2), join(2), L("uld", "x")], [st("x", 1)]))
     A(P("uld-racy", [spawn(2), L("uld", "x"), join(2)], [st("x", 1)]))
     A(P("uld-ld-ok", [spawn(2), L("uld", "x"), join(2)], [ld("x")]))
+    # two threads store to the atomic, the second one saw the first store only through a relaxed load: an unsynchronised access
+    # ordered after the SECOND storer alone still races with the first store
+    for nm, acc in (("uld", L("uld", "x")), ("wmut", L("wmut", "x", v=5))):
+        A(P(f"{nm}-after-second-storer-racy", [spawn(2), spawn(3), ld("y", "acq"), br(1, 1, 1), acc, join(2), join(3)],
+            [st("x", 1)], [await_("x", "rlx", v=1), st("x", 2, "rel"), st("y", 1, "rel")]))
+        A(P(f"{nm}-after-both-storers-ok", [spawn(2), spawn(3), ld("y", "acq"), br(1, 1, 1), acc, join(2), join(3)],
+            [st("x", 1, "rel")], [await_("x", "acq", v=1), st("x", 2, "rel"), st("y", 1, "rel")]))
+        A(P(f"{nm}-after-second-storer-rmw-racy", [spawn(2), spawn(3), ld("y", "acq"), br(1, 1, 1), acc, join(2), join(3)],
+            [st("x", 1)], [await_("x", "rlx", v=1), fadd("x", 1, "rel"), st("y", 1, "rel")]))
+    # with_mut whose closure writes and then panics, the panic caught by the program: the value written stays written
+    A(P("withmut-caught-unwind-keeps-value", [L("wmut", "x", v=5, k="unwind"), ld("x"), fadd("x", 1), L("uld", "x")]))
+    A(P("withmut-caught-unwind-keeps-value-thread", [spawn(2), join(2), ld("x"), swap("x", 9)], [st("x", 1), L("wmut", "x", v=7, k="unwind"), ld("x")]))
     A(P("withmut-synced-ok", [spawn(2), L("wmut", "x", v=5), st("y", 1, "rel"), join(2)], [await_("y", "acq"), ld("x")]))
     # the same accesses made through loom::cell::Cell (get = read access; set / replace / take = write access)
     plain = [q for q in out if any(i["op"] in ("rd", "wr") for th in q["threads"] for i in th)
@@ -1411,6 +1423,15 @@ def static_shapes():
     A(P("lz-unjoined-two-threads", [spawn(2), spawn(3), LZ("Z0")], [LZ("Z0")], [ld("x"), LZ("Z0")]))
     A(P("lz-unjoined-racy-init", [spawn(2), LZ("Z1", "yield")], [LZ("Z1", "yield"), LR("Z1")]))
     A(P("lz-init-in-main-before-spawn", [LZ("Z0")] + SJ(2) + JJ(2), [LZ("Z0"), rd("c_Z0")], [rd("c_Z0")]))
+    # the destructor of a thread-local value runs before its thread counts as finished: whoever joins the thread sees what
+    # the destructor did (the interpreter's value does a SeqCst fetch_add on tl0c / tl1c); `tlexit` marks its place
+    TX = lambda k: I("tlexit", k)
+    A(P("tl-destructor-before-join", [spawn(2), join(2), ld("tl0c")], [TW("T0"), TX("T0")]))
+    A(P("tl-destructor-before-join-2keys", [spawn(2), join(2), ld("tl1c"), ld("tl0c")], [TW("T1"), TW("T0"), TX("T0"), TX("T1")]))
+    A(P("tl-destructor-concurrent-reader", SJ(2) + JJ(2), [TW("T0"), TX("T0")], [ld("tl0c", "acq"), ld("x")]))
+    A(P("tl-destructor-two-threads", SJ(2) + JJ(2) + [ld("tl0c")], [TW("T0"), TX("T0")], [ld("x"), TW("T0"), TX("T0")]))
+    A(P("tl-destructor-unused-key", [spawn(2), join(2), ld("tl0c")], [ld("x"), TX("T0")]))
+    A(P("tl-destructor-join-chain", [spawn(2), join(2), ld("tl0c")], [spawn(3), join(3)], [TW("T0"), TX("T0")]))
     A(P("lz-and-tl", SJ(2) + JJ(2), [TW("T0"), LZ("Z0"), TW("T0")], [LZ("Z0"), TW("T0")]))
     A(P("lz-with-atomics", SJ(2) + JJ(2) + [ld("x")], [st("x", 1, "rel"), LZ("Z0")], [LZ("Z0"), ld("x", "acq")]))
     return out
@@ -1605,6 +1626,12 @@ def limit_crash_programs():
     a2c = {"A": {"h0": ["a1", "a2"], "cell": "pc"}}
     out.append(P("lim-arc-payload-cell", [spawn(2), rd("pc"), L("adrop", "a1"), join(2)], [rd("pc"), L("adrop", "a2")], arcs=a2c))
     out.append(P("lim-arc-payload-cell-main-last", [spawn(2), rd("pc"), join(2), L("adrop", "a1")], [rd("pc"), L("adrop", "a2")], arcs=a2c))
+    # the limit strikes at a BLOCKING operation (the thread is already marked blocked) while its frame owns a loom Arc: the
+    # unwinding performs the Arc's decrement on a thread that cannot run
+    out.append(P("lim-blocking-op-with-arc-in-frame", SJ(2) + JJ(2), [L("ahold", "a1"), L("lock", "m"), ld("x"), L("unlock", "m"), L("adropheld", "a1")],
+                 [L("ahold", "a2"), L("lock", "m"), ld("x"), L("unlock", "m"), L("adropheld", "a2")], arcs=a2))
+    out.append(P("lim-join-with-arc-in-frame", [spawn(2), L("ahold", "a1"), join(2), L("adropheld", "a1")], [ld("x"), ld("x"), L("adrop", "a2")], arcs=a2))
+    out.append(P("lim-recv-with-guard-in-frame", [spawn(2), I("aguard", "x", k="always"), L("recv", "ch"), join(2), L("droprx", "ch")], [ld("y"), L("send", "ch", v=1)]))
     out.append(P("lim-arc-api-thread-unwrap-after-join", [spawn(2), join(2), L("aunwrap", "a1")], [ld("x"), L("adrop", "a2")], arcs=a2))
     return [normalize(p) for p in out]
 
